@@ -313,6 +313,11 @@ def fit_trace(kind, c, world, seed):
     st = {"run": 0, "acc": {}}
 
     def put(phase, k, batch):
+        if isinstance(batch, (list, tuple)):       # several loaders combined where the specification has one: recorded as such
+            for j, b in enumerate(batch):
+                if b is not None:
+                    put(phase, j, b)
+            return
         st["acc"].setdefault(phase, {}).setdefault(k, []).append(decode_batch(kind, batch, world, gen))
 
     def flush(phase, trainer, dls):
@@ -463,6 +468,7 @@ def violations(tier, seed):
     combos = sorted({b for g in table.values() for b in g})
     # ---- (2) replay into the real objects
     world = World({1, 2})
+    torch.manual_seed(seed)          # shuffled training loaders draw their order from the global generator
     plan = []
     if quick:
         # every (val, test) file configuration with both environments; the training file, the batch sizes and the shuffle
